@@ -363,6 +363,15 @@ class Explorer:
                     st.env[v.func.value.id] = ("list", cur[1] + tuple(arg[1]))
                 else:
                     st.env[v.func.value.id] = ("concat", (cur, arg))
+        # xs.sort(key=K, reverse=R) / xs.reverse() on a local: from here on xs denotes sorted(xs, ...) / xs[::-1]
+        if isinstance(v, ast.Call) and isinstance(v.func, ast.Attribute) and isinstance(v.func.value, ast.Name) \
+                and v.func.attr in ("sort", "reverse") and not v.args and v.func.value.id in st.env:
+            cur = st.env[v.func.value.id]
+            if v.func.attr == "sort":
+                kwargs = tuple((k.arg, n.norm(k.value)) for k in v.keywords if k.arg is not None)
+                st.env[v.func.value.id] = T.mk_call("sorted", [cur], kwargs)
+            elif not v.keywords:
+                st.env[v.func.value.id] = ("slice", cur, T.NONE, T.NONE, C(-1))
         return [(st, None)]
 
     def _assign_target(self, tg: ast.expr, value: Term, st: State, node: ast.AST):
